@@ -40,7 +40,7 @@ fn three<'v, T: Deserialize<'v> + std::fmt::Debug>(v: &'v Value, text: &'v str) 
 }
 
 const TYPES: &[&str] = &["map-optkey", "map-newtype-str", "map-newtype-int", "map-newtype-bool", "map-enumkey", "map-unitkey", "number", "jsonmap", "ignored", "cowstr", "boxstr",
-                         "tuplestruct", "unitstruct", "withnumber", "borrowing", "value", "opt-number", "vec-number", "charkeymap", "i128"];
+                         "tuplestruct", "unitstruct", "withnumber", "borrowing", "value", "opt-number", "vec-number", "charkeymap", "i128", "map-byteskey", "map-valkey-enum"];
 
 fn run_type(ty: &str, v: &Value, text: &str) -> String {
     match ty {
@@ -64,6 +64,8 @@ fn run_type(ty: &str, v: &Value, text: &str) -> String {
         "vec-number" => three::<Vec<Number>>(v, text),
         "charkeymap" => three::<BTreeMap<char, Option<()>>>(v, text),
         "i128" => three::<(i128, u128)>(v, text),
+        "map-byteskey" => three::<BTreeMap<serde_bytes::ByteBuf, u8>>(v, text),
+        "map-valkey-enum" => three::<BTreeMap<String, KEnum>>(v, text),
         _ => "?".into(),
     }
 }
@@ -94,6 +96,8 @@ fn fit(ty: &str, r: &mut Rng) -> Value {
         "map-newtype-int" => obj(r, &["0", "-1", "32767", "32768", "-32768", "-32769", "01", "1.0", "1e2", " 1", "a", "", "+1", "-0"], &|r| boolish(r)),
         "map-newtype-bool" => obj(r, &["true", "false", "True", "1", "", "tru", "truee"], &|r| small(r)),
         "map-enumkey" => obj(r, &["A", "B", "1", "C", "a", "", "One"], &|r| small(r)),
+        "map-byteskey" => obj(r, &["", "ab", "é", "\u{0}z"], &|r| small(r)),
+        "map-valkey-enum" => obj(r, &["x", "y"], &|r| match r.below(6) { 0 => json!("A"), 1 => json!("B"), 2 => json!("1"), 3 => json!({"A": null}), 4 => json!({"B": 1}), _ => json!("C") }),
         "map-unitkey" => obj(r, &["null", "", "()", "unit"], &|r| small(r)),
         "charkeymap" => obj(r, &["a", "é", "\u{1F600}", "", "ab", "\u{0}"], &|r| if r.chance(1, 3) { json!(null) } else if r.chance(1, 2) { json!(()) } else { json!(0) }),
         "number" | "opt-number" => num(r),
